@@ -337,7 +337,90 @@ def vserde_replay(ctx, rp):
     return (1 if bad else 0), so, se, secs
 
 
+# ---------------------------------------------------------------------- network checks (vnet)
+
+def vnet_build(ctx, variants):
+    for v in variants:
+        ctx["cargo_build"]("vnet", bins=[f"vnet_{v}"], features=[v])
+
+
+def vnet_run(ctx, variant, sub, extra=None, tag=None):
+    r = run_monitor(ctx, _bin(ctx, f"vnet_{variant}"), sub, extra=extra, tag=tag or f"{sub}.{variant}")
+    for v in r.get("violations", []):
+        v["binary"] = f"vnet_{variant}"
+    return r
+
+
+def vnet_replay(ctx, rp):
+    cmd = [_bin(ctx, rp.get("binary") or "vnet_plain")] + rp["argv"] + ["--tier", ctx["tier"]]
+    if rp["argv"] and rp["argv"][0] == "c12":
+        cmd += ["--certs", os.path.join(ctx["work"], "certs")]
+    rc, so, se, secs = ctx["run"](cmd, timeout=QUICK_TIMEOUT)
+    bad = rc != 0 or '"violations_total":0' not in so.replace(" ", "")
+    return (1 if bad else 0), so, se, secs
+
+
+def c11_build(ctx):
+    vnet_build(ctx, ["plain"] + (["native", "rtls"] if ctx["tier"] == "thorough" else []))
+
+
+def c11_steps(ctx):
+    res = [vnet_run(ctx, "plain", "c11")]
+    if ctx["tier"] == "thorough":
+        # the TLS-enabled builds take the same plain-HTTP workload through their cfg variants of send()
+        qctx = dict(ctx, tier="quick")
+        for v in ("native", "rtls"):
+            res.append(vnet_run(qctx, v, "c11", tag=f"c11.{v}.thorough-extra"))
+    return res
+
+
+def ensure_certs(ctx):
+    import importlib.util
+    d = os.path.join(ctx["work"], "certs")
+    spec = importlib.util.spec_from_file_location("certs", os.path.join(ctx["verif"], "lib", "certs.py"))
+    mod = importlib.util.module_from_spec(spec)
+    spec.loader.exec_module(mod)
+    try:
+        mod.make(d)
+    except Exception as e:
+        raise ctx["Inconclusive"](f"certificate generation with the openssl CLI failed: {e}")
+    return d
+
+
+def c12_build(ctx):
+    vnet_build(ctx, ["native", "rtls"])
+
+
+def c12_steps(ctx):
+    d = ensure_certs(ctx)
+    res = [vnet_run(ctx, v, "c12", extra=["--certs", d]) for v in ("native", "rtls")]
+    res[0]["coverage"]["rule"] = res[0]["coverage"]["rule"].replace("for the native-tls build", "per TLS backend build (native-tls and rustls, both run)")
+    res[0]["coverage"]["tls_backends_run"] = ["native-tls", "rustls"]
+    return res
+
+
+def c18_build(ctx):
+    vnet_build(ctx, ["plain"])
+    # the real binary, from /repo's working tree
+    cmd = ["cargo", "build", "--offline", "--release", "-p", "ipp-util", "--target-dir", os.path.join(ctx["harness"], "target", "util")]
+    e = ctx["env_base"]()
+    rc, so, se, secs = ctx["run"](cmd, timeout=3600, cwd=ctx["repo"], env=e)
+    if rc != 0:
+        raise ctx["Inconclusive"]("building ipputil from /repo/util failed:\n" + "\n".join(se.splitlines()[-20:]))
+    ctx["log"](f"[build] ipputil ok in {secs:.1f}s")
+
+
+def c18_steps(ctx):
+    util = os.path.join(ctx["harness"], "target", "util", "release", "ipputil")
+    work = os.path.join(ctx["work"], "c18")
+    os.makedirs(work, exist_ok=True)
+    return [vnet_run(ctx, "plain", "c18", extra=["--ipputil", util, "--work", work])]
+
+
 CHECKS = {
+    "C11": {"build": c11_build, "steps": c11_steps, "replay": vnet_replay, "level": "exploration"},
+    "C12": {"build": c12_build, "steps": c12_steps, "replay": vnet_replay, "level": "exploration"},
+    "C18": {"build": c18_build, "steps": c18_steps, "replay": vnet_replay, "level": "exploration"},
     "C20": {"build": vserde_build, "steps": vserde_steps, "replay": vserde_replay, "level": "exploration"},
     "C02": {"build": vcore_build, "steps": c02_steps, "replay": c02_replay, "level": "exploration"},
     "C01": vcore_check("c01"),
